@@ -369,6 +369,14 @@ class NSGCoordinator(GameCoordinator):
                 new_self_firewall[mapping_ips[ip]].add(mapping_ips[dst_ip])
         self._firewall = new_self_firewall
 
+        #self._firewall_original
+        new_self_firewall_original = {}
+        for ip, dst_ips in self._firewall_original.items():
+            new_self_firewall_original[mapping_ips[ip]] = set()
+            for dst_ip in dst_ips:
+                new_self_firewall_original[mapping_ips[ip]].add(mapping_ips[dst_ip])
+        self._firewall_original = new_self_firewall_original
+
         #self._ip_to_hostname
         new_self_ip_to_hostname  = {}
         for ip, hostname in self._ip_to_hostname.items():
@@ -810,7 +818,7 @@ class NSGCoordinator(GameCoordinator):
         # reset self._data to orignal state
         self._data = copy.deepcopy(self._data_original)
         # reset self._data_content to orignal state
-        self._firewall = copy.deepcopy(self._firewall)
+        self._firewall = copy.deepcopy(self._firewall_original)
         self._fw_blocks = {}
         return True
 
